@@ -75,6 +75,11 @@ def run(ctx):
     c07.forwarding(ctx, 'C17.R3', only=('remove',))
     # ... and a remove step of a recipe acts on the wells it addressed
     c07.addressed_selection(ctx, 'C17.R3', only=('remove',))
+    # ... and the selection of a slice is the documented one (selector grammar)
+    from .c13 import selector_grammar
+    selector_grammar(ctx, 'C17.R3')
+    from .c10 import cached_results_intact
+    cached_results_intact(ctx, 'C17.R4')    # the set of removed substances is not built inside a memoised result
     # R4 trash accounting
     trash(ctx, 'C17.R4')
     return {'explanation': 'R1: the kept contents are a dict comprehension over the container\'s own items whose key and '
